@@ -25,7 +25,7 @@ def gen_cases(tier, seed):
     out = []
     for i in range(n):
         s = env.seed_for(seed, ID, tier, i)
-        r = random.Random(s)
+        r = random.Random(env.seed_for(s, "descriptor"))  # independent of the stream run_case derives from the same seed
         ncalls = r.randint(1, maxcalls)
         W = plainrun.pick_W(r, ncalls)
         d = {"seed": s, "n": ncalls, "W": W, "sched": r.choice(["default", "random", None]),
